@@ -41,6 +41,18 @@ CHECKS = {
     "C20": ("exploration", "runtime monitoring of the real executable as a child process (stdout/stderr/exit status), differential against the in-process run of the same build; failing sinks (closed pipe, /dev/full)",
             "The release binary built from the working tree is spawned on generated inputs under all policies, valid and invalid configurations and three kinds of stdout; streams and exit status are compared with the in-process reference.",
             "The in-process run of the same library is the reference for stream contents; only process-level behaviour (which fd, exit status, lost output) is decided here.", "5 C20"),
+    "C05": ("exploration", "runtime monitoring: panic hook + catch_unwind + process-death + watchdog-with-isolated-confirmation around the real jawk::go; exhaustive small byte strings in the driver; ASan / valgrind / Miri shards in the thorough tier",
+            "Exhaustive over all byte strings up to length 4 (quick, plus a 1/8 shard of length 5) or 6 (thorough) over the 24-byte JSON alphabet; seeded mutations of valid streams up to 4 KiB; generated (50 % ill-typed) expressions with multi-byte characters at chosen offsets and boundary numeric arguments in every option position; release and debug (overflow-checking) builds.",
+            "Only the explored inputs/expressions are covered; non-termination is restated as no return within 20 s confirmed by a 60 s isolated re-run; resource exhaustion (range/collections > 10^4, nesting > 64) is out of the property's domain.", "5 C05, 6"),
+    "C11": ("exploration", "runtime monitoring: metamorphic oracle on stdout bytes (out(A.B) = out(A).out(B), also B.A and A.A) for generated stateless pipelines",
+            "Five real runs per generated (pipeline, A, B); pure byte comparison, no model; expressions from the full generated grammar, all output styles, regex cache sizes 0/1/2.",
+            "Runs that fail for configuration reasons or panic are skipped and counted (C18/C05).", "5 C11"),
+    "C12": ("exploration", "runtime monitoring: metamorphic oracle inside one run (bound form vs manually substituted form as paired columns; same expression in several --select positions)",
+            "Bindings (set, define, --set variable/macro) are evaluated next to their substituted forms, usually inside a nested input so that ^ crosses the binding; the same expression is also placed in 2-4 selects, also after --split-by.",
+            "Substitution is performed on the AST by the harness; the generator guarantees macro bodies without free macro references; pipes vs model are C04's part.", "5 C12"),
+    "C13": ("exploration", "runtime monitoring: metamorphic oracles between runs (select vs filter/sort-by/group-by/split-by/macro position; canonical vs alias/separator/sugar spelling; regex cache sizes 0/1/2/64)",
+            "The same generated expression is used in all five option positions and in all spellings (80/80 aliases of pure functions exercised per quick run) and regex-heavy histories are run under four cache sizes with hook-observed hits/misses/evictions.",
+            "Relations between runs of the same build only; a defect that affects all positions identically is C04's business.", "5 C13"),
 }
 
 PENDING_REASON = "check not built yet in this session (see DESIGN.md section 5 for the planned monitor)"
